@@ -6,6 +6,7 @@ import (
 	"sort"
 	"strings"
 	"testing"
+	"time"
 
 	"verif/sim/netsim"
 	"verif/sim/prng"
@@ -20,6 +21,11 @@ type C06Cfg struct {
 	Participants []uint16 `json:"participants"` // nodes that invoke KeyGen (one per party unless Refusal)
 	MapKind      string   `json:"mapKind"`      // identity | injective | replicas
 	Refusal      bool     `json:"refusal"`      // two participants represent the same party
+	// Overlap (loud mode, replicas): two signing sessions on different topics run at the same time on the same
+	// Schemes; in the second one the parties are represented by other replicas where they have any. What one
+	// session learned about who represents whom must not leak into the other.
+	Overlap       bool     `json:"overlap,omitempty"`
+	Participants2 []uint16 `json:"participants2,omitempty"`
 }
 
 func genC06(seed uint64, tier string) C06Cfg {
@@ -132,7 +138,134 @@ func genC06(seed uint64, tier string) C06Cfg {
 	c.Sess = s
 	c.Universe = universe
 	c.Participants = participants
+	if ro := prng.Derive(seed, "overlap"); kind == "replicas" && !c.Refusal && ro.Bool(0.5) {
+		// the second session: for every party another replica if there is one
+		var p2 []uint16
+		differs := false
+		for _, q := range participants {
+			alt := q
+			for _, u := range universe {
+				if u != q && pids[u] == pids[q] {
+					alt = u
+				}
+			}
+			if alt != q {
+				differs = true
+			}
+			p2 = append(p2, alt)
+		}
+		if differs {
+			sort.Slice(p2, func(i, j int) bool { return p2[i] < p2[j] })
+			c.Overlap = true
+			c.Participants2 = p2
+			c.Sess.Deploy.Silent = false
+			c.Sess.Deploy.PickFixed = nil
+			c.Sess.Op = "sign"
+			c.Sess.Late = -1
+			if sp := &c.Sess.Deploy.SignSP; sp.Rounds < 2 {
+				sp.Rounds = 2 // point-to-point messages are still being emitted when the other session initialises
+				width := 1
+				if sp.Bcast > 1 {
+					width = sp.Bcast
+				}
+				if span := (sp.Rounds-1)*width + sp.Bcast - 1; int(sp.RoundBase)+span > 127 {
+					sp.RoundBase = uint8(127 - span)
+				}
+			}
+			c.Sess.Deploy.SignSP.Lockstep = true
+		}
+	}
 	return c
+}
+
+// runC06Overlap: two concurrent signing sessions whose parties are represented by different replicas.
+func runC06Overlap(spec RunSpec, cfg C06Cfg, res *RunResult) (*netsim.World, *Deployment, *netsim.ScriptSched) {
+	w := netsim.NewWorld(spec.Seed)
+	w.Serial = cfg.Sess.Serial
+	trace(spec, res.Cfg, w)
+	d := NewDeployment(w, cfg.Sess.Deploy)
+	d.Build()
+	pidOf := cfg.Sess.Deploy.PIDs
+	sched, ss := scheduler(spec, cfg.Sess.Strategy)
+	topics := []string{cfg.Sess.Topic + "/A", cfg.Sess.Topic + "/B"}
+	sessions := [][]uint16{cfg.Participants, cfg.Participants2}
+	var parties []uint16
+	for _, u := range cfg.Participants {
+		parties = append(parties, pidOf[u])
+	}
+	sort.Slice(parties, func(i, j int) bool { return parties[i] < parties[j] })
+	for _, u := range cfg.Universe {
+		d.Parties[u].SetStoredData(fabricatedStored(parties, cfg.Sess.T, pidOf[u]))
+	}
+	st := &starter{}
+	for si, part := range sessions {
+		for _, id := range part {
+			wgt := 3.0
+			if si == 1 {
+				wgt = 0.6 // the second session tends to start a little later
+			}
+			st.add(fmt.Sprintf("start:sg%d:%d", si, id), id, wgt, startSign(d, id, sha([]byte(topics[si])), topics[si], 0))
+		}
+	}
+	w.Propose = st.proposals
+	lim := netsim.RunLimits{MaxSteps: 200000, Horizon: 30 * time.Minute, FairAfterSteps: 6000, FairAfter: 2 * time.Minute}
+	if v := w.Run(sched, lim, func() bool { return st.allDone(w) && quiet(w) }); v != nil {
+		res.Violations = append(res.Violations, *v)
+	}
+	res.Violations = append(res.Violations, panicViolations(w, "C06/panic")...)
+	if len(res.Violations) > 0 {
+		return w, d, ss
+	}
+	// every point-to-point message goes to exactly the node that represents its addressee in ITS session
+	nodeOfParty := []map[uint16]uint16{{}, {}}
+	for si, part := range sessions {
+		for _, u := range part {
+			nodeOfParty[si][pidOf[u]] = u
+		}
+	}
+	topicIdx := map[string]int{string(sha([]byte(topics[0]))): 0, string(sha([]byte(topics[1]))): 1}
+	for _, e := range d.Rec.Snapshot() {
+		if e.Kind != "send" || e.Bcast {
+			continue
+		}
+		var dests []uint16
+		si := -1
+		for _, m := range w.WireLog {
+			if !isMPC(m) || m.From != e.Node {
+				continue
+			}
+			wr, ok := ParseMPC(m.Data)
+			if !ok || wr.IsAck || string(wr.Payload) != string(e.Payload) {
+				continue
+			}
+			dests = append(dests, m.To)
+			if i, ok := topicIdx[string(m.Topic)]; ok {
+				si = i
+			}
+		}
+		if si < 0 {
+			// never reached the wire: the session it belongs to is found through the emitting node's calls
+			res.Violations = append(res.Violations, netsim.Violation{Invariant: "C06/p2p-destination", Class: "C06/p2p-destination/overlap", Detail: fmt.Sprintf("node %d addressed party %d while two sessions were running, but nothing was transmitted (map %v, sessions %v)", e.Node, e.To, pidOf, sessions)})
+			return w, d, ss
+		}
+		want := nodeOfParty[si][e.To]
+		if len(dests) != 1 || dests[0] != want {
+			res.Violations = append(res.Violations, netsim.Violation{Invariant: "C06/p2p-destination", Class: "C06/p2p-destination/overlap", Detail: fmt.Sprintf("session %q (nodes %v): node %d addressed party %d, which node %d represents in this session, but transmitted to %v; the other session, running at the same time, has nodes %v (map %v)", topics[si], sessions[si], e.Node, e.To, want, dests, sessions[1-si], pidOf)})
+			return w, d, ss
+		}
+		w.Probes["p2p-checked"]++
+	}
+	if !st.allDone(w) {
+		res.Violations = append(res.Violations, netsim.Violation{Invariant: "C06/stalled", Class: "C06/stalled/overlap", Detail: "two fault-free signing sessions on different topics did not both finish: " + callSummary(st.calls())})
+		return w, d, ss
+	}
+	for _, c := range st.calls() {
+		if c.Err != nil {
+			res.Violations = append(res.Violations, netsim.Violation{Invariant: "C06/call-failed", Class: "C06/call-failed/overlap", Detail: "two fault-free signing sessions on different topics: " + callSummary(st.calls())})
+			break
+		}
+	}
+	return w, d, ss
 }
 
 func u16s(a []uint16) string { return fmt.Sprint(a) }
@@ -217,6 +350,16 @@ func runC06(t *testing.T, spec RunSpec) *RunResult {
 		mode = "silent"
 	}
 	res.ConfigKey = fmt.Sprintf("%s parties=%d nodes=%d %s %s refusal=%v", cfg.MapKind, len(cfg.Participants), len(cfg.Universe), mode, cfg.Sess.Op, cfg.Refusal)
+	if cfg.Overlap {
+		res.ConfigKey = fmt.Sprintf("replicas parties=%d nodes=%d loud two-overlapping-sign-sessions", len(cfg.Participants), len(cfg.Universe))
+		bubble(t, func() {
+			w, d, ss := runC06Overlap(spec, cfg, res)
+			res.Nontrivial = true
+			d.Teardown()
+			fillResult(res, w, ss)
+		})
+		return res
+	}
 	bubble(t, func() {
 		sc := cfg.Sess
 		// only the participants invoke; every configured node exists
